@@ -9,6 +9,7 @@ from dsim.sim import ALL_SLOTS, Sim
 from dsim.world import substream
 
 PROPERTY = "C11"
+DECOY = 0.25  # share of runs that edit a second document first and keep it open (runner.with_decoy)
 RULE = (
     "one run = a document with two identically built tables; every position-taking call (write, set_cell_style, set_cell_formatting, "
     "set_cell_border; the arguments after the position vary per op and are the same for both: style by name or object, seven format kinds, a side or a list of sides x stroke length omitted/1/2/3) is sent to table 0 in row/column form and to table 1 in A1 or $A$1 form (lock-step twins, compared with each other "
